@@ -129,4 +129,4 @@ def write_dbc(fcp: FcpV2) -> Result[str, str]:
         for bus in buses
     ]
 
-    return Ok([(bus, str(db.as_dbc_string(sort_signals="default"))) for bus, db in dbs])
+    return Ok([(bus, str(db.as_dbc_string(sort_signals="default", shorten_long_names=False))) for bus, db in dbs])
